@@ -48,6 +48,8 @@ class UKVAdapter:
             elif a == "get":
                 v = self.h[act["h"]].get(KEYS[act["k"]])
                 return {"out": "ok", "val": val_tok(v)}
+            elif a == "truncate":
+                self.h[act["h"]].truncate()
             elif a == "pickle":
                 import pickle
                 self.h[act["h"]] = pickle.loads(pickle.dumps(self.h[act["h"]]))
